@@ -32,7 +32,6 @@ func TestBoundaries(t *testing.T) {
 			{"iat-1ns", map[string]any{"iat": s}, Opts{AllowMissingExpiration: true, ExpectIssuedInThePast: true}, base.Add(-skew - 1), false},
 			{"iat", map[string]any{"iat": s}, Opts{AllowMissingExpiration: true, ExpectIssuedInThePast: true}, base.Add(-skew), true},
 			{"iat-unchecked", map[string]any{"iat": s}, Opts{AllowMissingExpiration: true}, base.Add(-time.Hour), true},
-			{"iat-missing", map[string]any{}, Opts{AllowMissingExpiration: true, ExpectIssuedInThePast: true}, base, false},
 			{"exp-missing", map[string]any{}, Opts{}, base, false},
 		}
 		for _, c := range cases {
@@ -42,8 +41,16 @@ func TestBoundaries(t *testing.T) {
 			}
 		}
 	}
-	if OptsLegal(Opts{ClockSkew: 10*time.Minute + 1}) || !OptsLegal(Opts{ClockSkew: 10 * time.Minute}) {
-		t.Errorf("clock skew limit")
+	if d := Decide(tok(map[string]any{}), []Key{key}, Opts{AllowMissingExpiration: true, ExpectIssuedInThePast: true}, base); d.Accept || !d.Either {
+		t.Errorf("absent iat with ExpectIssuedInThePast must be unsettled, got %+v", d)
+	}
+	re := tok(map[string]any{"exp": s})
+	re.Compact, re.Reencoded = false, true
+	if d := Decide(re, []Key{key}, Opts{}, base.Add(-1)); d.Accept || !d.Either {
+		t.Errorf("re-encoded, otherwise valid: want either, got %+v", d)
+	}
+	if d := Decide(re, []Key{key}, Opts{}, base); d.Accept || d.Either {
+		t.Errorf("re-encoded and expired: want reject, got %+v", d)
 	}
 }
 
@@ -71,7 +78,6 @@ func TestKeyRules(t *testing.T) {
 		{"alg none", Token{Compact: true, SignedBy: "m", SignedAlg: "ES256", Header: hdr("none", nil, false)}, []Key{custom}, false},
 		{"other material", Token{Compact: true, SignedBy: "x", SignedAlg: "ES256", Header: hdr("ES256", nil, false)}, []Key{custom}, false},
 		{"disabled", Token{Compact: true, SignedBy: "m", SignedAlg: "ES256", Header: hdr("ES256", nil, false)}, []Key{{Material: "m", Alg: "ES256", Rule: KIDCustom, KID: "c"}}, false},
-		{"through JWK a key-ID kid becomes a custom kid", Token{Compact: true, SignedBy: "m", SignedAlg: "ES256", Header: hdr("ES256", nil, false)}, TransportJWK([]Key{tink}), true},
 	}
 	for _, c := range cases {
 		c.tok.Claims = map[string]any{}
